@@ -1,8 +1,107 @@
-"""C12 - engine K (Kani) harnesses, see harness/src/c12.rs and engine_k/harnesses.json"""
+"""C12 - engine K (Kani) harnesses, see harness/src/c12.rs and engine_k/harnesses.json, plus an engine M obligation
+that links a persisted object's hand-written TLV writer to its separately written reader (obligations/tlv_stream.py)"""
+import re
+import z3
+from engine_m import exec as X
+from engine_m.session import Binding
 from engine_k import runner as K
+from .common import *
+from .tlv_stream import TlvStream
 
-EVIDENCE = dict(assumptions=['kernel only: codec primitives of util/ser.rs and the TLV-stream machinery of the real exported macros on a probe struct; every large persisted object (manager, monitor, graph, scorer, sweeper) and behavioural equivalence after reload are outside the claim', 'Kani model: bitcoin-io io::Error payload compiled out under cfg(kani) (harness/patched/bitcoin-io); harness-local fixed-array Writer/Reader'])
+EVIDENCE = dict(assumptions=['kernel only: codec primitives of util/ser.rs and the TLV-stream machinery of the real exported macros on a probe struct (Kani); the field wiring of ClaimableHTLC\'s writer (write_claimable_htlc) against its reader over an abstract record stream - leaf codecs and byte lengths abstracted (engine M); every other large persisted object (manager, monitor, graph, scorer, sweeper) and behavioural equivalence after reload are outside the claim', 'Kani model: bitcoin-io io::Error payload compiled out under cfg(kani) (harness/patched/bitcoin-io); harness-local fixed-array Writer/Reader'])
 
 
 def run(S):
+    claimable_htlc(S, S.decls())
     K.run_property(S, 'C12')
+
+
+def claimable_htlc(S, D):
+    """C12.m: a ClaimableHTLC (persisted inside ChannelManager for every payment awaiting a claim) written by
+    write_claimable_htlc reads back through <(ClaimableHTLC, u64) as Readable>::read with every field intact.
+    The two sides keep separate TLV field lists; both macro expansions are executed from their MIR over the
+    abstract record stream of tlv_stream.py."""
+    ids = ('C12.m.claimable_htlc.roundtrip', 'C12.m.claimable_htlc.nopanic', 'C12.m.claimable_htlc.witness', 'C12.m.claimable_htlc.validate')
+    if all(S._skip(o) for o in ids):
+        return
+    E = S.engine(unwind=14)
+    mem = {}
+    fw = S.fn('write_claimable_htlc')
+    ix = S.mir()
+    c = [i for i in range(len(ix.offsets)) if re.search(r'::read\(_1: &mut R\) -> (?:std::result::)?Result<\((?:\w+::)*ClaimableHTLC, u64\)', ix.offsets[i][0])]
+    if len(c) != 1:
+        raise X.Unsupported('reader of (ClaimableHTLC, u64): %d candidates' % len(c))
+    fr = ix.get(c[0])
+    T = TlvStream(E, D)
+    T.install_writer()
+    htlc = E.sym('htlc', '&ln::channelmanager::ClaimableHTLC', mem)
+    total = E.sym('total', 'u64')
+    wcell = E.new_cell()
+    mem[wcell] = X.Opaque('writer')
+    wr = S.call(E, fw, [htlc, total, X.Ref(wcell)], mem)
+    w_ok = z3.And(S.ret_guard, X.zint(wr.d) == 0)
+    recs = T.finish_writer()
+    T.install_reader()
+    rcell = E.new_cell()
+    mem[rcell] = X.Opaque('reader')
+    rr = S.call(E, fr, [X.Ref(rcell)], mem)
+    r_ok = z3.And(S.ret_guard, X.zint(rr.d) == 0)
+    back, back_total = rr.vs[0][0].fs[0], rr.vs[0][0].fs[1]
+    orig = mem[htlc.cell]
+    MP, CH = D.struct_fields('MppPart'), D.struct_fields('ClaimableHTLC')
+    rd = lambda v, path: E.read_path(v, path, mem, True, 'spec')
+
+    def part(v, nm, ty):
+        mp = rd(v, (('f', CH.index('mpp_part'), 'ln::channelmanager::MppPart'),))
+        return rd(mp, (('f', MP.index(nm), ty),))
+
+    def ident(v):
+        """identity of an abstract (non-integer) leaf value"""
+        if getattr(v, 'alt', None) is not None:
+            c_, a, b = v.alt
+            return z3.If(X.zbool(c_), ident(a), ident(b))
+        if getattr(v, 'base', None) is None:
+            return z3.Int('ident!unknown%d' % next(E.nfresh))
+        return z3.Int('ident.' + v.base)
+
+    def opt_u64(o):
+        return X.zint(o.d) == 1, E.en_payload(o, 'Some', 1, 0, 'u64', mem, 'spec').t
+    both = []
+    flat_in, flat_out = [], []
+    for nm, ty in (('value', 'u64'), ('sender_intended_value', 'u64'), ('cltv_expiry', 'u32')):
+        a, b = part(orig, nm, ty).t, part(back, nm, ty).t
+        both.append(a == b)
+        flat_in.append(a)
+        flat_out.append(b)
+    both.append(total.t == back_total.t)
+    o_trv, b_trv = opt_u64(part(orig, 'total_value_received', 'Option<u64>')), opt_u64(part(back, 'total_value_received', 'Option<u64>'))
+    o_sk = opt_u64(rd(orig, (('f', CH.index('counterparty_skimmed_fee_msat'), 'Option<u64>'),)))
+    b_sk = opt_u64(rd(back, (('f', CH.index('counterparty_skimmed_fee_msat'), 'Option<u64>'),)))
+    for (os_, ov), (bs_, bv) in ((o_trv, b_trv), (o_sk, b_sk)):
+        both.append(z3.And(os_ == bs_, z3.Implies(os_, ov == bv)))
+    both.append(ident(part(orig, 'prev_hop', 'ln::channelmanager::HTLCPreviousHopData')) == ident(part(back, 'prev_hop', 'ln::channelmanager::HTLCPreviousHopData')))
+    o_pl = rd(orig, (('f', CH.index('onion_payload'), 'ln::channelmanager::OnionPayload'),))
+    b_pl = rd(back, (('f', CH.index('onion_payload'), 'ln::channelmanager::OnionPayload'),))
+    SP = D.variant_index('OnionPayload', 'Spontaneous')
+    o_key, b_key = X.zint(o_pl.d) == SP, X.zint(b_pl.d) == SP
+    o_data = rd(o_pl, (('v', 'Invoice'), ('f', 0, 'Option<ln::msgs::FinalOnionHopData>')))
+    b_data = rd(b_pl, (('v', 'Invoice'), ('f', 0, 'Option<ln::msgs::FinalOnionHopData>')))
+    o_has, b_has = z3.And(z3.Not(o_key), X.zint(o_data.d) == 1), z3.And(z3.Not(b_key), X.zint(b_data.d) == 1)
+    both += [o_key == b_key, o_has == b_has]
+    both.append(z3.Implies(o_key, ident(rd(o_pl, (('v', 'Spontaneous'), ('f', 0, 'types::payment::PaymentPreimage')))) == ident(rd(b_pl, (('v', 'Spontaneous'), ('f', 0, 'types::payment::PaymentPreimage'))))))
+    both.append(z3.Implies(o_has, ident(rd(o_data, (('v', 'Some'), ('f', 0, 'ln::msgs::FinalOnionHopData')))) == ident(rd(b_data, (('v', 'Some'), ('f', 0, 'ln::msgs::FinalOnionHopData'))))))
+    panic = z3.Or(*[X.zbool(p[0]) for p in E.panics]) if E.panics else False
+    v_, siv, cl = flat_in
+    args = [v_, siv, total.t, z3.If(o_trv[0], 1, 0), z3.If(o_trv[0], o_trv[1], 0), cl, z3.If(o_sk[0], 1, 0), z3.If(o_sk[0], o_sk[1], 0), z3.If(o_key, 1, 0), z3.If(o_has, 1, 0)]
+    outs = [z3.If(r_ok, 1, 0), flat_out[0], flat_out[1], back_total.t, z3.If(b_trv[0], 1, 0), z3.If(b_trv[0], b_trv[1], 0), flat_out[2],
+            z3.If(b_sk[0], 1, 0), z3.If(b_sk[0], b_sk[1], 0), z3.If(b_key, 1, 0), z3.If(b_has, 1, 0)]
+    outs = [outs[0]] + [z3.If(r_ok, o, 0) for o in outs[1:]]
+    pre = [z3.Implies(o_has, True)]
+    b = Binding('claimable_htlc_roundtrip', args, outs, panic=panic,
+                domain=[(0, U64), (0, U64), (0, U64), (0, 1), (0, U64), (0, U32), (0, 1), (0, U64), (0, 1), (0, 1)])
+    S.prove(ids[0], E, pre, z3.And(w_ok, r_ok, *both),
+            'a ClaimableHTLC written by write_claimable_htlc reads back with every field intact (amounts, sender-intended amount, CLTV expiry, total, received total, skimmed fee, previous hop, keysend preimage / legacy payment data): the writer\'s and the reader\'s separately maintained TLV field lists agree',
+            [b], bounds='abstract record stream: %d records (%s); leaf codecs and byte lengths abstracted; all field values' % (len(recs), ', '.join(str(r['t']) for r in recs)))
+    S.no_panic(ids[1], E, pre, 'neither side panics', [b])
+    S.witness(ids[2], E, pre + [o_key, o_sk[0], o_trv[0]], r_ok)
+    S.validate(ids[3], E, b, n=100 if S.tier == 'quick' else 400)
